@@ -663,6 +663,15 @@ func main() {
 			{"docker-image-step-outputs", stepOut("actions/checkout@v4", "ref"), stepOut("docker://alpine:3.19", "ref")},
 			{"docker-image-step-outputs-any-name", stepOut("actions/checkout@v4", "commit"), stepOut("docker://ghcr.io/owner/img:1", "digest")},
 		}...)
+		// a closed object merged (|| / &&) with an object of which nothing is known: a member that only
+		// the other operand could have stays accepted
+		mergeSite := func(other string) string {
+			return hdr + "    steps:\n      - run: echo ${{ (fromJSON('{\"a\":\"x\"}') || " + other + ").b.c }} ${{ (" + other + " && fromJSON('{\"a\":\"x\"}')).b.c }}\n"
+		}
+		sites = append(sites, []struct{ name, precise, loose string }{
+			{"merge-closed-with-open-event", mergeSite("fromJSON('{\"b\":{\"c\":\"y\"}}')"), mergeSite("github.event")},
+			{"merge-closed-with-unknown", mergeSite("fromJSON('{\"b\":{\"c\":\"y\"}}')"), mergeSite("fromJSON(vars.X)")},
+		}...)
 		// a ROW key that an include element re-defines as an object: with the element's type unknown the
 		// member access on the row key must stay accepted
 		inclRow := func(el string) string {
